@@ -236,7 +236,9 @@ func getCommit(
 			return
 		} else {
 			var tmpSum []byte
-			tmpSum, err = ensureTempCommit(cmd, db, rs, c, branchName, branch.File, branch.PrimaryKey, quiet, delim)
+			// the branch's file is read with the branch's delimiter, as commit
+			// does: the temp commit made here is the cache commit reuses
+			tmpSum, err = ensureTempCommit(cmd, db, rs, c, branchName, branch.File, branch.PrimaryKey, quiet, branch.Delimiter)
 			if err != nil {
 				return
 			}
